@@ -24,39 +24,89 @@ FILE = "Cython/Utility/MemoryView.pyx"
 FULL = intern_id("slice(None)")
 
 
+ROLES = {}
+
+
+def _bind(fn):
+    """roles of the locals and loops, read off the function's ast on every run (no local variable is named by this contract):
+       tuple   - the first parameter;
+       scan    - the first loop, `for <item> in <tuple>`; count = the name it increments by 1; first = the name it assigns the count to;
+       result  - the name bound to `[...] * <n>`;
+       fills   - every later top-level loop (for-range or while `v < bound` with `v += 1`): they only store into `result`."""
+    import ast
+    from dv.pyfe import StaleContract
+    tup = fn.args.args[0].arg
+    loops = [n for n in ast.walk(fn) if isinstance(n, (ast.For, ast.While))]
+    loops.sort(key=lambda n: (n.lineno, n.col_offset))
+    if not loops or not (isinstance(loops[0], ast.For) and isinstance(loops[0].iter, ast.Name) and loops[0].iter.id == tup):
+        raise StaleContract("the first loop is not `for item in %s`" % tup)
+    incs = [n.target.id for n in ast.walk(loops[0]) if isinstance(n, ast.AugAssign) and isinstance(n.op, ast.Add) and isinstance(n.target, ast.Name)
+            and isinstance(n.value, ast.Constant) and n.value.value == 1]
+    if len(incs) != 1:
+        raise StaleContract("the scanning loop does not increment exactly one counter")
+    count = incs[0]
+    firsts = [n.targets[0].id for n in ast.walk(loops[0]) if isinstance(n, ast.Assign) and isinstance(n.value, ast.Name) and n.value.id == count
+              and isinstance(n.targets[0], ast.Name)]
+    if len(firsts) != 1:
+        raise StaleContract("the scanning loop does not record the counter in exactly one local")
+    results = [n.targets[0].id for n in ast.walk(fn) if isinstance(n, ast.Assign) and isinstance(n.value, ast.BinOp) and isinstance(n.value.op, ast.Mult)
+               and isinstance(n.value.left, ast.List) and isinstance(n.targets[0], ast.Name)]
+    if len(results) != 1:
+        raise StaleContract("no single local is bound to `[...] * n`")
+    ROLES.clear()
+    ROLES.update(tuple=tup, count=count, first=firsts[0], result=results[0])
+    invs = {0: _Scan()}
+    for k, lp in enumerate(loops[1:], 1):
+        if isinstance(lp, ast.For):
+            invs[k] = _Fill(k, None, None)
+        else:
+            t = lp.test
+            if not (isinstance(t, ast.Compare) and len(t.ops) == 1 and isinstance(t.ops[0], ast.Lt) and isinstance(t.left, ast.Name)):
+                raise StaleContract("while loop #%d is not of the form `v < bound`" % k)
+            bound = t.comparators[0].id if isinstance(t.comparators[0], ast.Name) else None
+            invs[k] = _Fill(k, t.left.id, bound)
+    return invs
+
+
 class _Scan:
-    """for item in index_tuple: (idx counts the items; first_ellipsis_index is -1 or the position of an item already seen)"""
+    """for item in <tuple>: (count counts the items; first is -1 or the position of an item already seen)"""
     modifies_heap = []
 
     def holds(self, ex, st, st0):
         k = st.vars["_k0"].t
-        idx, first = st.vars["idx"].t, st.vars["first_ellipsis_index"].t
-        t = st0.vars["index_tuple"].addr
-        return [("idx counts the items visited", And(idx == k, k >= 0, k <= st.heap.len(t))),
-                ("first_ellipsis_index is -1 or a visited position", And(first >= -1, first < idx))]
+        idx, first = st.vars[ROLES["count"]].t, st.vars[ROLES["first"]].t
+        t = st0.vars[ROLES["tuple"]].addr
+        return [("the counter counts the items visited", And(idx == k, k >= 0, k <= st.heap.len(t))),
+                ("the recorded position is -1 or a visited position", And(first >= -1, first < idx))]
 
     def decreases(self, ex, st):
-        return st.heap.len(st.vars["index_tuple"].addr) - st.vars["_k0"].t
+        return st.heap.len(st.vars[ROLES["tuple"]].addr) - st.vars["_k0"].t
 
 
 class _Fill:
-    """the two loops that store into `result`: its length stays ndim"""
+    """the loops that store into `result`: its length stays what it is, nothing else is written; the counter does not go below its start"""
     modifies_heap = ["list.el"]
 
-    def __init__(self, ordinal):
+    def __init__(self, ordinal, var, bound):
+        self.var, self.bound = var, bound            # while loop: its counter and (if a plain name) its bound
         self.k = "_k%d" % ordinal
         self.lo, self.hi = "_lo%d" % ordinal, "_hi%d" % ordinal
 
     def holds(self, ex, st, st0):
-        r = st0.vars["result"].addr
-        t = st0.vars["index_tuple"].addr
-        k = st.vars[self.k].t
+        r = st0.vars[ROLES["result"]].addr
         x = z3.Int("x!fill")
-        return [("the counter stays within the range", And(k >= st0.vars[self.lo].t, Or(k <= st0.vars[self.hi].t, st0.vars[self.hi].t < st0.vars[self.lo].t))),
-                ("only `result` is written", z3.ForAll([x], Implies(x != r, st.heap.els(x) == st0.heap.els(x))))]
+        frame = ("only `result` is written", z3.ForAll([x], Implies(x != r, st.heap.els(x) == st0.heap.els(x))))
+        if self.var is None:
+            k = st.vars[self.k].t
+            return [("the counter stays within the range", And(k >= st0.vars[self.lo].t, Or(k <= st0.vars[self.hi].t, st0.vars[self.hi].t < st0.vars[self.lo].t))), frame]
+        return [("the counter does not go below its start", st.vars[self.var].t >= st0.vars[self.var].t), frame]
 
     def decreases(self, ex, st):
-        return st.vars[self.hi].t - st.vars[self.k].t
+        if self.var is None:
+            return st.vars[self.hi].t - st.vars[self.k].t
+        if self.bound is None:
+            return z3.IntVal(0) - st.vars[self.var].t        # no plain bound: termination is not claimed with a meaningful measure
+        return st.vars[self.bound].t - st.vars[self.var].t
 
 
 def _callees():
@@ -71,7 +121,7 @@ def _post(e):
     t0 = e.index_tuple
     n0 = e.h0.len(t0)
     res = e.result[1]
-    first = e.vars["first_ellipsis_index"].t
+    first = e.vars[ROLES["first"]].t
     return And(e.h.len(res) == e.ndim,
                n0 - If(first >= 0, 1, 0) <= e.ndim)
 
@@ -127,7 +177,7 @@ def units(tier):
                        # IndexError: only for a tuple longer than ndim (with an Ellipsis, ndim + 1 items are still fine: not distinguished here)
                        "IndexError": lambda e: e.h0.len(e.index_tuple) > e.ndim},
                callees=_callees(), native=_native, search=lambda seed, ob: _native({}, ob),
-               options={"merge": False, "invariants": {0: _Scan(), 1: _Fill(1), 2: _Fill(2)},
+               options={"merge": False, "invariants": _bind,
                         "source_transform": lambda src: pyxsrc.cut(src, names), "elem_kind": {"list": "any", "tuple": "any"},
                         "opaque_names": ("Ellipsis",)})
     return [u]
